@@ -146,7 +146,7 @@ func C06(args []string) {
 		idx   int
 	}
 	var jobs []job
-	for _, al := range [][]byte{[]byte("ab"), []byte("a ")} {
+	for _, al := range [][]byte{[]byte("ab"), []byte("a "), []byte("a\x00")} {
 		for n := 0; n <= maxAB; n++ {
 			for i := 0; i < countStrings(2, n); i++ {
 				jobs = append(jobs, job{al, n, i})
@@ -246,6 +246,64 @@ func C06(args []string) {
 		}
 	})
 
+	// (b2) run-length family over bytes that include 0x00 (stale or uninitialised buffer contents are
+	// zero, so only inputs containing NUL can tell them from real data): A^n B and A^n B A^m B
+	rl3 := []byte{0x00, 0x01, ' '}
+	type rjob struct {
+		a, b byte
+		n    int
+	}
+	var rjobs []rjob
+	maxRun := 320
+	if r.Thorough() {
+		maxRun = 700
+	}
+	for _, a := range rl3 {
+		for _, b := range rl3 {
+			if a != b {
+				for n := 0; n <= maxRun; n++ {
+					rjobs = append(rjobs, rjob{a, b, n})
+				}
+			}
+		}
+	}
+	core.ParallelFor(len(rjobs), func(i int) {
+		j := rjobs[i]
+		one := append(bytes.Repeat([]byte{j.a}, j.n), j.b)
+		for _, in := range [][]byte{one, append(append([]byte{}, one...), one...), append(append([]byte{}, one...), bytes.Repeat([]byte{j.a}, 61)...)} {
+			base := c06Case{Family: "runlength", Name: fmt.Sprintf("%02x^%d %02x", j.a, j.n, j.b), InputHex: hexs(in), CRC: true, ZeroAt: -1}
+			ref, class, detail := c06Encode(in, true, nil, -1, nil)
+			encodes.Add(1)
+			if class != "" {
+				viol(class, detail, base)
+				continue
+			}
+			r.Nontrivial.Add(1)
+			for _, cut := range []int{1, 59, 60, 61, j.n, j.n + 1} {
+				if cut > 0 && cut < len(in) {
+					_, class, detail := c06Encode(in, true, []int{cut}, -1, ref)
+					encodes.Add(1)
+					r.Evals.Add(1)
+					if class != "" {
+						c := base
+						c.Cuts = []int{cut}
+						viol(class, detail, c)
+					}
+				}
+			}
+			for _, k := range []int{1, 59, 60, 61, len(in) + 1} {
+				class, detail := c06Decode(ref, in, true, []int{k})
+				decodes.Add(1)
+				r.Evals.Add(1)
+				if class != "" {
+					c := base
+					c.Reads = []int{k}
+					viol(class, detail, c)
+				}
+			}
+		}
+	})
+
 	// (c) long family
 	longs := longFamily(r.Thorough())
 	chunkings := []int{0, 1, 59, 60, 61, 4096}
@@ -295,14 +353,14 @@ func C06(args []string) {
 	})
 
 	r.Finish(core.Coverage{
-		"states":                        int64(shortInputs + len(sjobs) + len(longs)),
+		"states":                        int64(shortInputs + len(sjobs) + len(rjobs)*3 + len(longs)),
 		"transitions":                   encodes.Load() + decodes.Load(),
 		"traces_validated_against_impl": encodes.Load() + decodes.Load(),
 		"evaluations":                   r.Evals.Load(),
 		"distinct_nontrivial":           r.Nontrivial.Load(),
 		"rule":                          "states = distinct inputs; transitions = complete encode or decode runs of the real Writer/Reader (each a full sequence of Write/Read calls); non-trivial = distinct inputs for which the canonical encoder emits at least one match",
 		"short_inputs":                  shortInputs, "max_len_two_symbols": maxAB, "max_len_three_symbols": maxABC,
-		"structured_inputs": len(sjobs), "long_inputs": len(longs), "encodes": encodes.Load(), "decodes": decodes.Load(),
+		"structured_inputs": len(sjobs), "runlength_inputs": len(rjobs) * 3, "long_inputs": len(longs), "encodes": encodes.Load(), "decodes": decodes.Load(),
 		"write_read_call_sequences": rwcalls.Load(),
 	}, []string{
 		"compressed bytes are required to be identical for every write partition, so decoding the common bytes under every read composition covers the partition x composition product",
